@@ -24,6 +24,7 @@ import (
 	"github.com/sassoftware/relic/v8/token"
 	"github.com/sassoftware/relic/v8/zzverif/bridge"
 
+	"verif/gen/pegen"
 	"verif/mutate"
 	"verif/relicx"
 )
@@ -120,6 +121,10 @@ func buildSeeds(dir string) *seedBuilder {
 		{file: "dummy.cab", ext: ".cab", layout: "cab", quick: true, quickS: true, sign: true, tiny: true},
 		{name: "tiny.exe", ext: ".exe", layout: "pe", data: tinyPE(), quick: true, quickS: true, sign: true, tiny: true},
 		{file: "ClassLibrary1.dll", ext: ".dll", layout: "pe", quick: true, quickS: false, sign: true},
+		// signed WITH page hashes: verifying these walks the page-hash digester. One image
+		// for a machine type with 8 KiB pages (IA64), one with the usual 4 KiB
+		{name: "ia64-pagehashes.exe", ext: ".exe", layout: "pe", data: pagePE(0x200), quickS: true, sign: true, flags: url.Values{"page-hashes": {"true"}}},
+		{name: "amd64-pagehashes.exe", ext: ".exe", layout: "pe", data: pagePE(0), quickS: true, sign: true, flags: url.Values{"page-hashes": {"true"}}},
 		{file: "WindowsFormsApplication1.exe.manifest", ext: ".manifest", layout: "xml", quick: true, quickS: true, sign: true},
 		{file: "hyperv.cat", ext: ".cat", layout: "der", quick: true, quickS: true, sign: true},
 		{name: "tiny3.jar", ext: ".jar", layout: "zip", data: tinyJar(), quick: true, quickS: true, sign: true, tiny: true},
@@ -428,6 +433,15 @@ ess_cert_id_chain = no
 // ---------------------------------------------------------------- handmade
 
 // tinyPE: a minimal PE32 image (1 section, 1024 bytes) written from the spec.
+// pagePE: a generated PE32+ image with sections larger than one page.
+func pagePE(machine uint16) []byte {
+	sp := pegen.Canonical()
+	sp.Machine = machine
+	sp.Raw = []int{9216, 5120}
+	b, _ := pegen.Build(sp)
+	return b
+}
+
 func tinyPE() []byte {
 	b := make([]byte, 1024)
 	copy(b, "MZ")
